@@ -80,6 +80,7 @@ struct Ctx<'a, F: Flavour> {
     next: usize,
     step: usize,
     steps_after_script: usize,
+    bound: Option<usize>,
     violation: Option<Violation>,
     transposed: bool,
     stats: Stats,
@@ -415,7 +416,10 @@ impl<'a, F: Flavour> Ctx<'a, F> {
             self.steps_after_script += 1;
             // once the closure stops adding edges the loop must end: every node is
             // expanded at most once and every listing visited at most once
-            let bound = 4 * (2 * self.model.edges.len() + self.world.n()) + 16;
+            // fixed when the plan ran out: afterwards only operations that add no edge fire, so
+            // the listings that exist at that moment bound what is left to visit
+            let now = 4 * (2 * self.model.edges.len() + self.world.n()) + 16;
+            let bound = *self.bound.get_or_insert(now);
             if self.steps_after_script > bound {
                 self.violation = Some(Violation::new(
                     "non-termination",
@@ -467,6 +471,7 @@ fn run_host<F: Flavour>(sc: &InjSc, with_script: bool, stats: &mut Stats) -> (Op
         next: 0,
         step: 0,
         steps_after_script: 0,
+        bound: None,
         violation: None,
         transposed,
         stats: Stats::default(),
